@@ -122,6 +122,19 @@ def run_case(case):
     sigs = []
     if crashed:
         counters["histories_skipped_provider_crash"] = 1
+        # ... except when the crash itself comes from a second abort() that ENTERED after the first one's A-ABORT had been issued (the
+        # single-abort guard must stop that one; only concurrent entry is the known race): then the cut-short history - no
+        # EVT_CONN_CLOSE, transition chain ending in Sta13 - is reported
+        for side, aid in (("req", out["req_id"]), ("acc", out["acc_id"])):
+            sent = [e for e in out["history"] if e["side"] == side and e["assoc"] == aid and e["name"] == "EVT_ACSE_SENT" and e.get("prim") in ("A_ABORT", "A_P_ABORT")]
+            calls = [e for e in out["history"] if e["side"] == side and e["assoc"] == aid and e["name"] == "ABORT_CALL_ENTER"]
+            if len(sent) >= 2 and len(calls) >= 2 and any(c["seq"] > sent[0]["seq"] for c in calls[1:]):
+                names = [e["name"] for e in out["history"] if e["side"] == side and e["assoc"] == aid]
+                last_fsm = [e for e in out["history"] if e["side"] == side and e["assoc"] == aid and e["name"] == "EVT_FSM_TRANSITION"]
+                viol.append({"key": "history-cut-short|provider-crash-after-second-abort-entered-behind-the-first|%s" % side,
+                             "detail": "%s: %d abort() calls / %d A-ABORT requests on the %s side, the provider died on the second; EVT_CONN_CLOSE x%d, "
+                                       "last transition ends in %s" % (case["scenario"], len(calls), len(sent), side, names.count("EVT_CONN_CLOSE"),
+                                                                       last_fsm[-1]["nxt"] if last_fsm else None)})
     elif not out["quiet"]:
         counters["histories_skipped_not_terminated"] = 1
     else:
